@@ -191,6 +191,8 @@ class Gen:
             self.rk[k] = True
         self.on = {"inf": rnd.random() < 0.15, "kwglobal": rnd.random() < 0.3, "comp_target": rnd.random() < 0.4,
                    "paren": rnd.random() < 0.4, "clash": rnd.random() < 0.05, "dunder": rnd.random() < 0.25}
+        if f.get("only_on") is not None:      # development: exactly these repaired shapes, in every model
+            self.on = {k: k in f["only_on"] for k in self.on}
         f.update(feat or {})
         self.f = f
         self.sig = dict(SIG)
@@ -220,6 +222,11 @@ class Gen:
             if rnd.random() < 0.35:
                 self.shadowed.add(n)
         self.ref_shadow = rnd.choice([None, None, "len", "sum", "sorted"])
+        if self.rk["try_else"]:
+            # the listed finding is "export fails or NameError": with names that are also builtins an
+            # unprefixed name would silently read the builtin instead
+            self.shadowed.clear()
+            self.ref_shadow = None
         if self.ref_shadow:
             self.shadowed.add(self.ref_shadow)
         self.mref("g", "int", {"lit": rnd.randint(1, 9)})
@@ -1235,7 +1242,10 @@ class Gen:
         return {"code": code, "t": t, "tags": ["class-body"]}
 
     def s_class_attr_global(self, cx):
-        names = [n for n in self.int_names(cx) if n not in cx.sp.all_params()]
+        import builtins
+        # not a name that is also a builtin: the package would then read the builtin instead of raising
+        # NameError, which is not what the listed finding describes
+        names = [n for n in self.int_names(cx) if n not in cx.sp.all_params() and not hasattr(builtins, n)]
         if not names:
             return self.s_class(cx)
         r = self.rnd.choice(names)
